@@ -51,6 +51,11 @@ _PREFIXED = re.compile(r"^([^:]+):(.+)$")
 
 def expat_check(text: str):
     """Strict well-formedness + namespace check. Raises XFError."""
+    try:
+        text.encode("utf-8")
+    except UnicodeEncodeError as e:
+        # half a surrogate pair is no character: no encoding can carry the document to a parser
+        raise XFError("illformed", f"not encodable: {e.reason} (U+{ord(text[e.start]):04X})") from None
     p = expat.ParserCreate(namespace_separator=" ")
     # With namespace processing on, expat raises on unbound prefixes for elements and
     # attributes (error: unbound prefix), on duplicate attributes, bad chars, junk after root.
